@@ -251,6 +251,42 @@ def run(ctx):
             o.undecided("return after the main loop not found", ge)
 
     nests = removal_nests(ge)
+    with ctx.obligation("C09.2", "Network's edge methods do to the working graph what their names say") as o:
+        # the covering loop removes cover edges through self.remove_edge and ends when has_edges() is false: a remove_edge that
+        # does not remove leaves every edge in place (the loop never ends / cliques are picked again)
+        for mname, want in (("remove_edge", "remove_edge"), ("add_edge", "add_edge"), ("add_edges_from", "add_edges_from")):
+            m = prog.method(ci, mname)
+            if m is None:
+                o.undecided(f"Network.{mname} not found")
+                continue
+            calls = [n for n in astx.walk_fn(m.node) if isinstance(n, ast.Call) and isinstance(n.func, ast.Attribute) and n.func.attr == want
+                     and astx.self_attr(n.func.value) in ("_G", "G")]
+            if not calls:
+                o.violated(m, m.node, f"Network.{mname} never calls {want} on the working graph: the graph is left unchanged", shape_free=True)
+                continue
+            c0 = calls[0]
+            mp = astx.Parents(m.node)
+            conds = [(t_, pol_) for t_, pol_ in rules.path_conditions(mp, c0)]
+            a9 = m.node.args
+            n_def = len(a9.defaults)
+            pos9 = [x.arg for x in a9.posonlyargs + a9.args]
+            ps = [x for x in (pos9[: len(pos9) - n_def] if n_def else pos9) if x not in ("self", "cls")]      # the edge arguments: parameters WITHOUT a default (options do not count)
+            argn = set()
+            for a_ in c0.args:
+                argn |= astx.names_in(a_.value if isinstance(a_, ast.Starred) else a_)
+            filt = [a_ for a_ in c0.args if (isinstance(a_, (ast.GeneratorExp, ast.ListComp)) and any(g_.ifs for g_ in a_.generators) and astx.names_in(a_) & set(ps))
+                    or (isinstance(a_, ast.Call) and txt(a_.func) == "filter" and astx.names_in(a_) & set(ps))
+                    or (isinstance(a_, ast.Subscript) and isinstance(a_.slice, ast.Slice) and astx.names_in(a_.value) & set(ps))]
+            if filt:
+                o.violated(m, c0, f"Network.{mname} hands on only part of what it is given (`{txt(filt[0])[:70]}`): the edges that are filtered out never reach the working graph "
+                                  "and are covered by nothing", shape_free=True)
+            elif conds and not all(isinstance(t_, ast.Call) and txt(t_.func).endswith("has_edge") for t_, _ in conds):
+                o.undecided(f"`{txt(c0)}` in Network.{mname} is conditional (`{txt(conds[0][0])}`)", m, c0)
+            elif not set(ps) <= argn:
+                o.violated(m, c0, f"`{txt(c0)}` does not pass on the parameter(s) {sorted(set(ps) - argn)}: not the edge(s) it was given")
+            else:
+                o.holds(m, c0, f"Network.{mname} passes its argument(s) to `{txt(c0.func)}`")
+
     with ctx.obligation("C09.2", "every clique put in the cover has all its pairs removed before cliques are re-enumerated", floor=4) as o:
         for il, N, X, call, ok, why in nests:
             if not ok:
@@ -444,6 +480,30 @@ def run(ctx):
                 # a clique kept whole can coincide with no other entry, whatever its vertex order (confirmed by a
                 # differential run of the variant that drops the early sort: identical covers)
                 o.holds(lm, lp, "cliques kept whole are distinct vertex sets (maximal cliques, each listed once): their vertex order does not matter for the de-duplication")
+
+    with ctx.obligation("C09.5", "compute_scores is handed the clique list and the cover in that order") as o:
+        # the scorer's first parameter is the list it scores (cliques), its second the list it appends score-0 cliques to (the
+        # cover that get_EECC returns): both are lists, so a swap is silent
+        rets_ = [n for n in astx.walk_fn(ge.node) if isinstance(n, ast.Return) and n.value is not None]
+        cover = None
+        if rets_:
+            rv = rets_[-1].value
+            while isinstance(rv, ast.Call) and txt(rv.func) in ("sorted", "list", "tuple") and rv.args:
+                rv = rv.args[0]             # return sorted(EC, key=..)
+            cover = rv.id if isinstance(rv, ast.Name) else None
+        for c_ in [n for n in astx.walk_fn(ge.node) if isinstance(n, ast.Call) and txt(n.func) == "self.compute_scores"]:
+            if len(c_.args) < 2 or cover is None:
+                o.undecided("call of compute_scores / returned cover not recognised", ge, c_)
+                continue
+            a0, a1 = txt(c_.args[0]), txt(c_.args[1])
+            cl_defs = [s_ for s_ in sc.assigns.get(a0, []) if isinstance(getattr(s_, "value", None), ast.Call) and txt(s_.value.func) == "self.limited_maximal_cliques"]
+            if a1 == cover and cl_defs:
+                o.holds(ge, c_, f"compute_scores({a0} = the enumerated cliques, {a1} = the cover that is returned, ..)")
+            elif a0 == cover:
+                o.violated(ge, c_, f"compute_scores is called with the cover `{a0}` as the list to score and `{a1}` as the list to extend: the score-0 cliques are appended to the "
+                                   "candidate list instead of the cover", shape_free=True)
+            else:
+                o.undecided(f"arguments ({a0}, {a1}) of compute_scores not recognised as (cliques, cover)", ge, c_)
 
     with ctx.obligation("C09.5", "score-0 cliques go in intact; the random tie-break is over the largest minimum-score candidates", floor=3) as o:
         scs = Scope(cs.node)
